@@ -1,5 +1,6 @@
 """Rules over the run-time library crate `ascent` (index building blocks): L1 L2 L3 L4 L6 L7 L8 and the default
 merge (G5-default). Properties C19, C05 (L1), C02 (L1), C20 (L8)."""
+import re
 from facts import walk, callee, children
 from tree import strip, root_local, place_path, cname, iname, lit_bool, pat_bindings
 from core import Broken
@@ -938,3 +939,50 @@ def check_L27(ctx, rep):
     if n < 6:
         raise Broken('L27: only %d walks over shard collections found in the concurrent index types (anchor lost?)' % n)
     return n
+
+
+# ------------------------------------------------------------------ L31
+
+_NONBLOCKING = re.compile(r'::(try_get|try_get_mut|try_entry|try_lock|try_read|try_write|try_lock_arc|try_read_recursive|try_upgradable_read)$')
+_NONBLOCKING_SELFTEST = ('dashmap::DashMap::<K, V, S>::try_get', 'lock_api::RwLock::<R, T>::try_write', 'std::sync::Mutex::<T>::try_lock')
+
+
+def check_L31(ctx, rep):
+    """a momentarily held lock is not an absent key: the concurrent index types (and the code around them) acquire shard / map locks
+    with the blocking calls. A non-blocking attempt (`try_get`, `try_entry`, `try_lock`, `try_read`, `try_write`) reports a lock held
+    by another worker as a third outcome; outside a retry loop that outcome is folded into "absent" / "not inserted", and the caller
+    files a second row for a key that is being inserted right now. Expected count on the tree: zero (the matcher is self-tested on
+    three known names on every run)."""
+    for nm in _NONBLOCKING_SELFTEST:
+        if not _NONBLOCKING.search(nm):
+            raise Broken('L31: matcher self-test failed on %s' % nm)
+    if _NONBLOCKING.search('dashmap::DashMap::<K, V, S>::get') or _NONBLOCKING.search('std::rc::Rc::<T>::try_unwrap'):
+        raise Broken('L31: matcher self-test: false positive')
+    cr = ctx.lib('ascent')
+    n_fn = n_acq = 0
+    for path, b in sorted(cr.bodies.items()):
+        if b['name'].startswith('test'):
+            continue
+        n_fn += 1
+        for x, parents in walk(b['tree']):
+            if x.get('k') not in ('mcall', 'call'):
+                continue
+            c = callee(x)
+            if not c:
+                continue
+            nm = cname(c)
+            if nm.endswith(('::get', '::get_mut', '::entry', '::lock', '::read', '::write')) and ('DashMap' in nm or 'RwLock' in nm or 'Mutex' in nm):
+                n_acq += 1
+            if not _NONBLOCKING.search(nm):
+                continue
+            in_loop = any(p.get('k') == 'loop' for p in parents)
+            rep.inst('L31', '%s: non-blocking acquisition %s (%s)' % (path, nm.split('::')[-1], 'inside a retry loop' if in_loop else 'single attempt'))
+            rep.functions.add(path)
+            if not in_loop:
+                rep.viol('L31', path, 'nonblocking:' + nm.split('::')[-1],
+                         '`%s` gives up when another worker holds the lock, and this is a single attempt: "locked" is treated like "absent" - a key '
+                         'that is being inserted concurrently is reported missing (a second row is filed for it) or an insertion is lost'
+                         % nm.split('::')[-1], loc=cr.loc(x))
+    rep.inst('L31', 'ascent: %d functions scanned, %d blocking lock / map acquisitions, non-blocking attempts as listed' % (n_fn, n_acq))
+    if n_acq < 5:
+        raise Broken('L31: only %d blocking acquisitions recognised in the ascent crate (anchor lost?)' % n_acq)
